@@ -539,6 +539,9 @@ def _get_sort_aux(node):  # noqa: C901
         ]:
             return get_sort(node[2])
         if ident == 'fp' and len(node) == 4:
+            if get_bv_width(node[1]) != 1:
+                # the sign is a bit-vector of width 1
+                return None
             ew = get_bv_width(node[2])
             sw = get_bv_width(node[3])
             if ew == -1 or sw == -1:
